@@ -18,6 +18,50 @@ def commands():
     return c
 
 
+# ------------------------------------------------------------------------------------------ audit events
+_AUDIT = {"on": False, "events": [], "root": None, "installed": False}
+_WRITE_EVENTS = {"os.mkdir", "os.rename", "os.remove", "os.rmdir", "os.utime", "os.chmod", "os.chown", "os.truncate", "os.link", "os.symlink",
+                 "shutil.copyfile", "shutil.copymode", "shutil.copystat", "shutil.copytree", "shutil.move", "shutil.rmtree", "os.mkfifo", "os.mknod"}
+
+
+def _audit_hook(event, args):
+    if not _AUDIT["on"]:
+        return
+    try:
+        if event == "open":
+            path, mode, flags = args[0], args[1], args[2]
+            if not isinstance(path, (str, bytes)):
+                return
+            wr = (isinstance(mode, str) and any(c in mode for c in "wax+")) or (isinstance(flags, int) and flags & (os.O_WRONLY | os.O_RDWR | os.O_CREAT | os.O_TRUNC | os.O_APPEND))
+            if wr:
+                _AUDIT["events"].append(("open-w", os.fsdecode(path)))
+        elif event in _WRITE_EVENTS:
+            paths = [os.fsdecode(a) for a in args if isinstance(a, (str, bytes))]
+            _AUDIT["events"].append((event,) + tuple(paths))
+    except Exception:  # noqa
+        pass
+
+
+def audit_start(root):
+    import sys
+
+    if not _AUDIT["installed"]:
+        sys.addaudithook(_audit_hook)
+        _AUDIT["installed"] = True
+    _AUDIT.update(on=True, events=[], root=os.path.realpath(root))
+
+
+def audit_stop():
+    _AUDIT["on"] = False
+    root = _AUDIT["root"]
+    out = []
+    for ev in _AUDIT["events"]:
+        ps = [os.path.realpath(p) if os.path.isabs(p) else p for p in ev[1:]]
+        if any(p == root or p.startswith(root + os.sep) for p in ps):
+            out.append([ev[0]] + [os.path.relpath(p, root) if (p == root or p.startswith(root + os.sep)) else p for p in ps])
+    return out
+
+
 def run_cli(cmd, args, cwd=None):
     """-> (outcome, stdout+stderr text).  outcome = ('exit', n) or ('abort', ExceptionClassName)"""
     from click.testing import CliRunner
